@@ -231,7 +231,8 @@ static void primitive_cases(int th) {
       uint64_t n = 257;
       int64_t in[257], ci[257];
       const int64_t half = (int64_t)1 << (k - 1), lim = (int64_t)1 << 62;
-      const unsigned cbits = 63 - k;  // |carry_in| < 2^(63-k): digit + carry_in cannot overflow
+      // documented carry range: "at most 64+1-k bits"; capped at 2^62 like the limbs (k = 1, 2)
+      const unsigned cbits = (64 - k) > 62 ? 62 : (64 - k);
       for (uint64_t i = 0; i < n; i++) {
         switch (i % 8) {
           case 0: in[i] = half - 1; break;
@@ -247,7 +248,7 @@ static void primitive_cases(int th) {
         }
         int64_t c = cbits ? rng_sbits(r, cbits) : 0;
         if (i % 3 == 0) c = rng_range(r, -1, 1);
-        if (i % 5 == 0 && cbits) c = (c < 0 ? -1 : 1) * (((int64_t)1 << cbits) - 1);
+        if (i % 5 == 0 && cbits) c = (c < 0 ? -1 : 1) * (((int64_t)1 << cbits) - ((k <= 2 && (i % 10 == 0)) ? 0 : 1));  // +-2^62 itself for k <= 2
         ci[i] = c;
       }
       for (size_t s = 0; s < ARRAY_LEN(PRIM_SHAPES); s++)
